@@ -68,6 +68,7 @@ void va_use_arena(size_t bytes);
 void va_arena_protect(int readonly);
 bool va_in_arena(const void* p);
 void va_arena_reset(void);
+void va_arena_pause(int on); /* while on, new blocks come from the C library instead (the arena may stay write-protected) */
 
 /* set by the harness around library calls; direct libc allocator calls seen meanwhile are counted in vh_bypass (VH_WRAP builds) */
 extern int vh_in_lib;
